@@ -60,7 +60,7 @@ def _has_quant(t):
 class Engine(Evaluator):
     BUILTINS = {'len', 'min', 'max', 'abs', 'int', 'range', 'list', 'tuple', 'isinstance', 'slice', 'all', 'any',
                 'implies', 'old', 'enumerate', 'zip', 'ceil', 'floor', 'float', 'bool', 'str', 'dict', 'getattr',
-                'round', 'iff', 'sorted', 'ite', 'map', 'super', 'fresh_obj', 'same_fields_except', 'is_fresh', 'psum', 'ops_fold', 'op_row', 'nblocks', 'flat', 'elems', 'is_list', 'is_none'}
+                'round', 'iff', 'sorted', 'ite', 'map', 'super', 'fresh_obj', 'same_fields_except', 'is_fresh', 'psum', 'ops_fold', 'op_row', 'nblocks', 'flat', 'elems', 'is_list', 'is_none', 'smul', 'smul_def'}
 
     def __init__(self, spec_module_path=None):
         self.obs = []
@@ -579,6 +579,29 @@ class Engine(Evaluator):
                 t._ax_key = key
                 st.pc.append(t)
             return VElem(F(A, B, n, row))
+        if name == 'smul_def':
+            # explicit instance of the DEFINITION smul(q, s) == q * s at ground terms chosen by the contract
+            q, sv = as_int(args[0]), as_int(args[1])
+            f = z3.Function('smul', z3.IntSort(), z3.IntSort(), z3.IntSort())
+            st.pc.append(f(q, sv) == q * sv)
+            return VBool(True)
+        if name == 'smul':
+            # q * s for a symbolic stride s, kept linear: uninterpreted with the recurrence that defines multiplication on q >= 0
+            # (smul(0,s)=0, smul(q+1,s)=smul(q,s)+s) and its monotonicity consequence; the concrete side evaluates q*s.
+            q, sv = as_int(args[0]), as_int(args[1])
+            f = z3.Function('smul', z3.IntSort(), z3.IntSort(), z3.IntSort())
+            key = ('smul', sv.get_id())
+            if not any(getattr(t, '_ax_key', None) == key for t in st.pc):
+                a, b = z3.Int(fresh_name('q')), z3.Int(fresh_name('q'))
+                ax = z3.And(f(z3.IntVal(0), sv) == 0,
+                            z3.ForAll([a], f(a + 1, sv) == f(a, sv) + sv),
+                            z3.ForAll([a, b], z3.Implies(z3.And(a < b, sv >= 1), f(a, sv) + sv <= f(b, sv))))
+                ax._ax_key = key
+                st.pc.append(ax)
+            cq = const_int(q)
+            if cq is not None and 0 <= cq <= 3:
+                return VInt(cq * sv)
+            return VInt(f(q, sv))
         if name == 'psum':
             # prefix sum of the first k elements of an int list: uninterpreted with its recursive definition as axioms
             lv, k = args[0], as_int(args[1])
@@ -1014,6 +1037,11 @@ class Engine(Evaluator):
             if setters and tgt.attr not in st.heap.objs[base.ref]:
                 self.apply_contract(setters[0], [base, val], {}, st, tgt)     # property with a setter: the setter's contract
                 return
+            if isinstance(val, VList) and st.heap.lists[val.ref].etype is None:
+                ft = self.class_fields(base.cls).get(tgt.attr)
+                if ft is not None and ft[0] in ('list', 'arr'):
+                    cell = st.heap.lists[val.ref]
+                    st.heap.lists[val.ref] = ListCell(ft[1], cell.length, [z3.K(z3.IntSort(), self.default_of(s_)) for s_ in leaf_sorts(ft[1])])
             st.heap.objs[base.ref][tgt.attr] = val
         elif isinstance(tgt, ast.Subscript):
             base = self.ev(tgt.value, st)
@@ -1224,6 +1252,8 @@ class Engine(Evaluator):
         for n, t in ltypes.items():
             if n not in st.env:
                 st.env[n] = self.fresh_value(parse_type(t), n + '.uninit', st)
+        for e in lc.get('defs_at_entry', []):
+            self.spec_truth(e, st)          # definitional instances (e.g. smul_def) requested by the contract
         # 1. invariant holds on entry
         self.check_invariant(st, lc, 'inv-entry', stmt, ordinal)
         # 2. arbitrary iteration
@@ -1283,6 +1313,7 @@ class Engine(Evaluator):
             st.env[hidden] = VInt(a)
             st.env[tname] = VInt(a)
             st.env[idx] = VInt(0)
+            st.env[tname + '__step'] = VInt(s)
 
             def guard(h):
                 return as_int(h.env[hidden]) < b
@@ -1564,7 +1595,10 @@ class Engine(Evaluator):
             for lab, e in c.at_exit:
                 self.oblige(f, 'post', 'at-exit.' + lab, self.spec_truth(e, f), None)
             for lab, e in c.ensures:
-                self.oblige(f, 'post', lab, self.spec_truth(e, f), None)
+                if lab in c.witness:
+                    self.oblige(f, 'post', lab, self.exists_with_witness(e, c.witness[lab], f), None)
+                else:
+                    self.oblige(f, 'post', lab, self.spec_truth(e, f), None)
             for exc, cond, mode in c.raises:
                 if mode == 'iff':
                     self.oblige(f, 'post', 'returns-normally-only-if-not-%s' % exc, z3.Not(self.spec_truth_entry(cond, f, entry_env)), None)
@@ -1579,6 +1613,32 @@ class Engine(Evaluator):
                 self.oblige(f, 'raise', 'no-%s-escapes' % f.exc, z3.BoolVal(False), None)
         else:
             raise Unsupported('path ended with status %s' % f.status)
+
+    def exists_with_witness(self, expr, wit, st):
+        """Goal `any(P(v..) for v in range(a, b) ...)` proved at the given witness terms: range guards and P at the witness."""
+        node = ast.parse(expr, mode='eval').body
+        if not (isinstance(node, ast.Call) and getattr(node.func, 'id', None) == 'any' and isinstance(node.args[0], ast.GeneratorExp)):
+            raise Unsupported('witness given for a clause that is not any(...)')
+        gen = node.args[0]
+        saved = dict(st.env)
+        st.spec += 1
+        try:
+            parts = []
+            for comp in gen.generators:
+                v = comp.target.id
+                w = self.ev(ast.parse(wit[v], mode='eval').body, st)
+                it = self.ev(comp.iter, st)
+                if not isinstance(it, VRange) or const_int(it.step) != 1:
+                    raise Unsupported('witness only for range iterators')
+                parts.append(z3.And(it.start <= as_int(w), as_int(w) < it.stop))
+                st.env[v] = w
+                for cond in comp.ifs:
+                    parts.append(self.truth(self.ev(cond, st), st))
+            parts.append(self.truth(self.ev(gen.elt, st), st))
+        finally:
+            st.spec -= 1
+            st.env = saved
+        return z3.And(parts)
 
     def spec_truth_entry(self, cond, f, entry_env):
         tmp = f.copy()
